@@ -5,8 +5,9 @@ tagged 16, shared with C16) and `get_damage_calculator`, `get_damage_logic`, `ge
 `get_builtin_strategy` (entries tagged 2) — lowered from the source with everything they call inlined, write NO object
 that existed before the call: two simulations built in one process share the repository object and cannot change it
 for each other.  Trusted as in `C02_Patches.lean` and `C16_Effects.lean`; NOT covered: `get_builder` /
-`get_operation_engine` (construction of `collections.defaultdict` in the router is not lowered) — engine construction
-stays observed by the differential runs of `check_C02`.
+`get_operation_engine` (the component wiring uses reflection — `inspect.signature` — and untyped attributes of
+`EngineBuilder`, which the lowering refuses) — engine construction stays observed by the differential runs of
+`check_C02`.
 -/
 import Simaple.Proofs.Effect
 import Simaple.Gen.Effects
